@@ -2223,4 +2223,243 @@ theorem sessionStep_settles {s s' : State} {k : Time × Nat} (h : sessionStep s 
     obtain ⟨bytes, _, s2, h2, rfl⟩ := h
     exact Or.inr ⟨hst, bytes, s2, h2, rfl, by simp [removeSession, emit]⟩
 
+/-! ## Hourly payouts in `BeginBlock` -/
+
+structure PayView where
+  payouts : Tbl Nat Payout
+  payQ : Tbl (Time × Nat) Unit
+  time : Time
+
+def payview (s : State) : PayView := ⟨s.payouts, s.payQ, s.time⟩
+
+@[simp] theorem payview_emit (s : State) (e : Event) : payview (emit s e) = payview s := rfl
+@[simp] theorem payview_setAllocation (s : State) (a : Alloc) : payview (setAllocation s a) = payview s := rfl
+@[simp] theorem payview_setBalance (s : State) (a : Addr) (d : Denom) (v : Int) : payview (setBalance s a d v) = payview s := rfl
+@[simp] theorem payview_setSupply (s : State) (d : Denom) (v : Int) : payview (setSupply s d v) = payview s := rfl
+@[simp] theorem payview_setDeposit (s : State) (a : Addr) (c : Coins) : payview (setDeposit s a c) = payview s := rfl
+@[simp] theorem payview_putDeposit (s : State) (a : Addr) (c : Coins) : payview (putDeposit s a c) = payview s := by
+  unfold putDeposit; split <;> rfl
+theorem foldlM_payview {α : Type} (f : State → α → M State) (hf : ∀ s a s', f s a = .ok s' → payview s' = payview s)
+    (l : List α) (s s' : State) (h : l.foldlM f s = .ok s') : payview s' = payview s :=
+  foldlM_inv (fun t => payview t = payview s) f (fun a b c h1 hp => (hf a b c h1).trans hp) l s s' h rfl
+
+theorem setProvider_payview {s s' : State} {p : Provider} (h : setProvider s p = .ok s') : payview s' = payview s := by
+  unfold setProvider at h
+  split at h <;> simp only [pure_eq_ok, gopanic_ne_ok] at h <;> (try subst h) <;> rfl
+
+theorem sendCoins_payview {s s' : State} {f t : Addr} {c : Coin} (h : sendCoins s f t c = .ok s') : payview s' = payview s := by
+  have := (sendCoins_ok h).2.1
+  rw [this]; rfl
+
+theorem sendModuleToAccount_payview {s s' : State} {f t : Addr} {c : Coin} (h : sendModuleToAccount s f t c = .ok s') :
+    payview s' = payview s := by
+  unfold sendModuleToAccount at h
+  split at h
+  · simp only [reject_ne_ok] at h
+  · exact sendCoins_payview h
+
+theorem mintCoins_payview {s s' : State} {m : Addr} {c : Coin} (h : mintCoins s m c = .ok s') : payview s' = payview s := by
+  unfold mintCoins at h
+  simp only [bind_eq_ok, pure_eq_ok] at h
+  obtain ⟨nb, _, ns, _, rfl⟩ := h
+  rfl
+
+theorem fundCommunityPool_payview {s s' : State} {f : Addr} {c : Coin} (h : fundCommunityPool s f c = .ok s') :
+    payview s' = payview s := by
+  unfold fundCommunityPool at h
+  split at h
+  · rw [pure_eq_ok] at h; rw [h]
+  · exact sendCoins_payview h
+
+theorem depositAdd_payview {s s' : State} {f t : Addr} {c : Coin} (h : depositAdd s f t c = .ok s') : payview s' = payview s := by
+  unfold depositAdd at h
+  simp only [bind_eq_ok, pure_eq_ok, require_eq_ok] at h
+  obtain ⟨s1, hs1, _, _, rfl⟩ := h
+  rw [payview_emit, payview_setDeposit, sendCoins_payview hs1]
+
+theorem depositToAccount_payview {s s' : State} {f t : Addr} {c : Coin} (h : depositToAccount s f t c = .ok s') :
+    payview s' = payview s := by
+  unfold depositToAccount at h
+  simp only [bind_eq_ok, pure_eq_ok, require_eq_ok, orReject_eq_ok] at h
+  obtain ⟨cur, _, _, _, s1, hs1, rfl⟩ := h
+  rw [payview_emit, payview_putDeposit, sendModuleToAccount_payview hs1]
+
+theorem depositToModule_payview {s s' : State} {f m : Addr} {c : Coin} (h : depositToModule s f m c = .ok s') :
+    payview s' = payview s := by
+  unfold depositToModule at h
+  simp only [bind_eq_ok, pure_eq_ok, require_eq_ok, orReject_eq_ok] at h
+  obtain ⟨cur, _, _, _, s1, hs1, rfl⟩ := h
+  rw [payview_emit, payview_putDeposit, sendCoins_payview hs1]
+
+theorem sendCoin_payview {s s' : State} {f t : Addr} {c : Coin} (h : sendCoin s f t c = .ok s') : payview s' = payview s := by
+  unfold sendCoin at h
+  split at h
+  · rw [pure_eq_ok] at h; rw [h]
+  · exact sendCoins_payview h
+
+theorem sendCoinFromAccountToModule_payview {s s' : State} {f m : Addr} {c : Coin}
+    (h : sendCoinFromAccountToModule s f m c = .ok s') : payview s' = payview s := by
+  unfold sendCoinFromAccountToModule at h
+  split at h
+  · rw [pure_eq_ok] at h; rw [h]
+  · exact sendCoins_payview h
+
+theorem addDeposit_payview {s s' : State} {a : Addr} {c : Coin} (h : addDeposit s a c = .ok s') : payview s' = payview s := by
+  unfold addDeposit at h
+  split at h
+  · rw [pure_eq_ok] at h; rw [h]
+  · exact depositAdd_payview h
+
+theorem subtractDeposit_payview {s s' : State} {a : Addr} {c : Coin} (h : subtractDeposit s a c = .ok s') :
+    payview s' = payview s := by
+  unfold subtractDeposit at h
+  split at h
+  · rw [pure_eq_ok] at h; rw [h]
+  · exact depositToAccount_payview h
+
+theorem sendCoinFromDepositToAccount_payview {s s' : State} {f t : Addr} {c : Coin}
+    (h : sendCoinFromDepositToAccount s f t c = .ok s') : payview s' = payview s := by
+  unfold sendCoinFromDepositToAccount at h
+  split at h
+  · rw [pure_eq_ok] at h; rw [h]
+  · exact depositToAccount_payview h
+
+theorem sendCoinFromDepositToModule_payview {s s' : State} {f m : Addr} {c : Coin}
+    (h : sendCoinFromDepositToModule s f m c = .ok s') : payview s' = payview s := by
+  unfold sendCoinFromDepositToModule at h
+  split at h
+  · rw [pure_eq_ok] at h; rw [h]
+  · exact depositToModule_payview h
+
+/-- A state-to-state step that only touches money tables (`MoneyFrame`) leaves the session tables alone. -/
+theorem MoneyFrame.payview {s s' : State} (h : MoneyFrame s s') : payview s' = payview s := by
+  unfold MoneyFrame at h; rw [h]; rfl
+
+theorem payview_mintBeginBlock_go (l : List Inflation) (s : State) : payview (mintBeginBlock.go s l) = payview s := by
+  induction l generalizing s with
+  | nil => rfl
+  | cons item rest ih =>
+    unfold mintBeginBlock.go
+    split
+    · rfl
+    · rw [ih]; rfl
+
+theorem payview_mintBeginBlock (s : State) : payview (mintBeginBlock s) = payview s := payview_mintBeginBlock_go _ s
+
+theorem payview_distrSweep (s : State) : payview (distrSweep s) = payview s := by
+  unfold distrSweep
+  exact foldl_inv (fun t => payview t = payview s) sweepDenom (fun t d h => (rfl : payview (sweepDenom t d) = payview t).trans h) _ s rfl
+
+
+/-- One payout step: the payout stored under the key's id is advanced by one hour. -/
+theorem payoutStep_payouts {s s' : State} {k : Time × Nat} (h : payoutStep s k = .ok s') :
+    ∃ item, s.payouts.get k.2 = some item ∧ s'.payouts = s.payouts.set (payoutAdvance item).id (payoutAdvance item) := by
+  unfold payoutStep at h
+  simp only [bind_eq_ok, pure_eq_ok, requireP_eq_ok, orPanic_eq_ok] at h
+  obtain ⟨item, hitem, reward, _, s2, h2, payAmt, _, _, _, s3, h3, rfl⟩ := h
+  refine ⟨item, hitem, ?_⟩
+  have e : s3.payouts = s.payouts :=
+    congrArg PayView.payouts ((sendCoinFromDepositToAccount_payview h3).trans ((sendCoinFromDepositToModule_payview h2).trans rfl))
+  rw [← e]
+  split <;> rfl
+
+theorem payoutAdvance_id' (p : Payout) : (payoutAdvance p).id = p.id := by
+  unfold payoutAdvance; simp only []; split <;> rfl
+
+/-- What one hourly payment does to the schedule: one hour fewer; next due exactly one hour later,
+or cleared when no hour is left. -/
+theorem payoutAdvance_spec (p : Payout) :
+    (payoutAdvance p).hours = p.hours - 1 ∧
+    ((payoutAdvance p).nextAt = p.nextAt + hour ∨ ((payoutAdvance p).hours = 0 ∧ (payoutAdvance p).nextAt = zeroTime)) := by
+  unfold payoutAdvance
+  simp only []
+  split
+  · rename_i h0; exact ⟨rfl, Or.inr ⟨h0, rfl⟩⟩
+  · exact ⟨rfl, Or.inl rfl⟩
+
+/-- The payout pass over distinct payout ids (records stored under their own id), in closed form:
+each listed payout is advanced exactly once, all others are untouched. -/
+theorem payoutFold_payouts (l : List (Time × Nat)) (s s' : State)
+    (h : l.foldlM (fun s k => panicIfErr (payoutStep s k)) s = .ok s')
+    (hk : ∀ i p, s.payouts.get i = some p → p.id = i) (hn : (l.map (·.2)).Nodup) :
+    ∀ i, s'.payouts.get i = if i ∈ l.map (·.2) then (s.payouts.get i).map payoutAdvance else s.payouts.get i := by
+  induction l generalizing s with
+  | nil => simp only [List.foldlM, pure_eq_ok] at h; rw [← h]; intro i; simp
+  | cons a rest ih =>
+    simp only [List.foldlM, bind_eq_ok, panicIfErr_eq_ok] at h
+    obtain ⟨s1, h1, h2⟩ := h
+    obtain ⟨item, hitem, e⟩ := payoutStep_payouts h1
+    have hid : item.id = a.2 := hk a.2 item hitem
+    rw [payoutAdvance_id', hid] at e
+    simp only [List.map_cons, List.nodup_cons] at hn
+    have hk1 : ∀ i p, s1.payouts.get i = some p → p.id = i := by
+      intro i p hp
+      rw [e, Tbl.get_set] at hp
+      split_ifs at hp with hc
+      · simp only [Option.some.injEq] at hp; rw [← hp, payoutAdvance_id', hid, hc]
+      · exact hk i p hp
+    intro i
+    rw [ih s1 h2 hk1 hn.2, e]
+    simp only [List.map_cons, List.mem_cons, Tbl.get_set]
+    by_cases hc : i = a.2
+    · subst hc; simp [hn.1, hitem]
+    · have hc' : ¬ a.2 = i := fun e => hc e.symm
+      by_cases hm : i ∈ List.map (fun x => x.2) rest <;> simp [hc, hc', hm]
+
+/-- The payout schedule is accurate: one queue entry per scheduled payout, at its `nextAt`, and
+payouts are stored under their own id (`SubIdx.payQ`, `SubIdx.nodup`, `CountInv.payouts`). -/
+structure PayQOK (s : State) : Prop where
+  nodup : Tbl.Nodup s.payQ
+  q : ∀ t i, s.payQ.has (t, i) = true → ∃ p, s.payouts.get i = some p ∧ p.nextAt = t
+  keyed : ∀ i p, s.payouts.get i = some p → p.id = i
+
+theorem PayQOK.of {s : State} (hc : CountInv s) (hi : SubIdx s) : PayQOK s :=
+  ⟨hi.nodup.2.2.2.2.2.2.2.1, fun t i h => by
+      obtain ⟨p, _, hp, ht, _⟩ := (hi.payQ t i).mp h
+      exact ⟨p, hp, ht⟩,
+    fun i p hp => (hc.payouts i p hp).1⟩
+
+/-- `BeginBlock` on the payout records: the payouts that are scheduled at or before the new block
+time are advanced by exactly one hour, each exactly once; all others are untouched. -/
+theorem beginBlock_payouts {s s' : State} {t : Time} (h : beginBlock s t = .ok s') (hp : PayQOK s) :
+    ∃ ids : List Nat, ids.Nodup ∧
+      (∀ i, i ∈ ids ↔ ∃ p, s.payouts.get i = some p ∧ s.payQ.has (p.nextAt, i) = true ∧ p.nextAt ≤ t) ∧
+      (∀ i, s'.payouts.get i = if i ∈ ids then (s.payouts.get i).map payoutAdvance else s.payouts.get i) := by
+  unfold beginBlock haltOf at h
+  split at h <;> try contradiction
+  rename_i s'' hs
+  simp only [Except.ok.injEq] at h
+  subst h
+  unfold subscriptionBeginBlock at hs
+  have e0 : payview (distrSweep (mintBeginBlock { s with time := t, height := s.height + 1, events := [] })) =
+      ⟨s.payouts, s.payQ, t⟩ := by
+    rw [payview_distrSweep, payview_mintBeginBlock]; rfl
+  have ep : (distrSweep (mintBeginBlock { s with time := t, height := s.height + 1, events := [] })).payouts = s.payouts :=
+    congrArg PayView.payouts e0
+  have eq : (distrSweep (mintBeginBlock { s with time := t, height := s.height + 1, events := [] })).payQ = s.payQ :=
+    congrArg PayView.payQ e0
+  have et : (distrSweep (mintBeginBlock { s with time := t, height := s.height + 1, events := [] })).time = t :=
+    congrArg PayView.time e0
+  rw [eq, et] at hs
+  have hn : ((dueIds Hub.Generated.Keys.subscription.PayoutForNextAtKey s.payQ t).map (·.2)).Nodup := by
+    refine nodup_map_snd (dueIds_nodup' _ _ hp.nodup) ?_
+    intro k hk k' hk' e
+    obtain ⟨p, hpg, hpt⟩ := hp.q k.1 k.2 (dueIds_mem_iff.mp hk).1
+    obtain ⟨p', hpg', hpt'⟩ := hp.q k'.1 k'.2 (dueIds_mem_iff.mp hk').1
+    rw [e, hpg'] at hpg
+    simp only [Option.some.injEq] at hpg
+    rw [← hpt, ← hpt', hpg]
+  refine ⟨_, hn, ?_, ?_⟩
+  · intro i
+    simp only [List.mem_map, dueIds_mem_iff]
+    constructor
+    · rintro ⟨⟨t', j⟩, ⟨hh, ht⟩, rfl⟩
+      obtain ⟨p, hpg, hpt⟩ := hp.q t' j hh
+      exact ⟨p, hpg, by rw [hpt]; exact hh, by rw [hpt]; exact ht⟩
+    · rintro ⟨p, _, hh, ht⟩
+      exact ⟨(p.nextAt, i), ⟨hh, ht⟩, rfl⟩
+  · have := payoutFold_payouts _ _ _ hs (by rw [ep]; exact hp.keyed) hn
+    intro i
+    rw [this i, ep]
+
 end Hub.Model
